@@ -1,211 +1,93 @@
 /-
   DDProofs.AutoCore — discharge of the hypotheses of the autoref theorems
-  (`CoreKeeps`) from the core theorems, for managers in which dynamic reordering is
-  not enabled (`lastLen = none`, mode `off = true`), and for `collect_garbage` in
-  every mode.
+  (`CoreKeeps` / `CoreKeepsAt`) from the core theorems, for managers in which dynamic
+  reordering is not enabled (`lastLen = none`, mode `off = true`), and for
+  `collect_garbage` in every mode.
 
-  The core theorems give `Inv`, `Ext`, `Frame` (DDProofs.Total: `ite_total`,
-  `apply_total`, …) and exact counts through `find_or_add` (DDProofs.RefCount).
-  What is added here: exact counts through `_ite` (`iteF_refExact_auto`), and the
-  packaging into `CoreKeeps`.
+  Sources: `*_total` (DDProofs.Total, ReachTotal: `Kept` for ARBITRARY arguments),
+  `*_lite` (DDProofs.ReachLite: exact counts, the signal is never raised), C06
+  (`collectGarbage_spec`), C07 (`applySifting_total_default`, `sortToOrder_exact`),
+  C11 (`copyBdd_spec`), C14 (`addVar_good`).
 -/
 import DDProofs.AutoProofs
 import DDProofs.AutoTemps
-import DDProofs.Total
-import DDProofs.SubstWrappers
+import DDProofs.ReachTotal
+import DDProofs.GcSched
+import DDProps.C07
 open Std
 
 namespace DD
 
-/-- closedness, disabled reordering and exact counts after a computation that never
-raises the reordering signal -/
-def RKpost (ext : Nat → Nat) {α : Type} (res : Except Err α × Mgr) : Prop :=
-  res.2.tbl.Closed ∧ res.2.lastLen = none ∧ RefExact res.2 ext ∧ res.1 ≠ .error .needsReordering
+/-! ### local copies of three lemmas of DDProofs.Reach
+(`DDProofs.Reach` and `DDProofs.SiftFinal` both define `DD.den_of_denN`, so no file can import
+both; this file needs C07) -/
 
-theorem topCofactor_ne_signal (t : Tbl) (u : Int) (i : Nat) :
-    topCofactor t u i ≠ .error .needsReordering := by
-  unfold topCofactor
-  split
-  · simp
-  · split
-    · simp
-    · split
-      · simp
-      · split
-        · simp
-        · split <;> simp
+theorem OrderOK.congr_auto {t t' : Tbl} (h : OrderOK t) (hv : t'.vars = t.vars) (hl : t'.l2v = t.l2v) :
+    OrderOK t' := by
+  have hn : t'.nvars = t.nvars := by simp only [Tbl.nvars, hv]
+  exact ⟨by rw [hv, hl]; exact h.inv, by rw [hv, hn]; exact h.lt, by rw [hn, hl]; exact h.total⟩
 
-/-- `find_or_add` keeps every stored edge pointing to a stored node -/
-theorem findOrAddCore_closed (m : Mgr) (ext : Nat → Nat) (i : Nat) (v w : Int)
-    (hc : m.tbl.Closed) (hr : RefExact m ext) : (findOrAddCore i v w m).2.tbl.Closed := by
-  rcases findOrAddCore_cases m i v w (fun u hu => hr.isSome u hu) with h | ⟨hv, hw, _, hfree, n, c1, c2, hlo, hhi, _, _, _, h⟩
-  · rw [h]; exact hc
-  · rw [h]
-    have hext : Ext m.tbl { m.tbl with succ := m.tbl.succ.insert m.minFree n } := ext_insert m.tbl m.minFree n hfree
-    intro k x hk
-    have hk' : ({ m.tbl with succ := m.tbl.succ.insert m.minFree n } : Tbl).node? k = some x := hk
-    rw [node?_insert] at hk'
-    by_cases hkk : m.minFree = k
-    · rw [if_pos hkk] at hk'
-      cases hk'
-      constructor
-      · have : m.tbl.Mem n.lo := by
-          show n.lo.natAbs = 1 ∨ _
-          rw [hlo]; exact hv
-        exact hext.mem this
-      · have : m.tbl.Mem n.hi := by
-          show n.hi.natAbs = 1 ∨ _
-          rw [hhi]; exact hw
-        exact hext.mem this
-    · rw [if_neg hkk] at hk'
-      obtain ⟨h1, h2⟩ := hc k x hk'
-      exact ⟨hext.mem h1, hext.mem h2⟩
+theorem RefExact.congr_nodes_auto {m m' : Mgr} {ext : Nat → Nat} (h : RefExact m ext)
+    (h1 : ∀ k, m'.tbl.node? k = m.tbl.node? k) (h2 : m'.ref = m.ref) : RefExact m' ext := by
+  refine ⟨?_, ?_, ?_⟩
+  · intro u; rw [h2, h1]; exact h.dom u
+  · intro u c hc; rw [h2] at hc; rw [indeg_congr h1]; exact h.cnt u c hc
+  · intro u hu; rw [h2] at hu; exact h.extZero u hu
 
-theorem findOrAddCore_lastLen (m : Mgr) (ext : Nat → Nat) (i : Nat) (v w : Int) (hr : RefExact m ext) :
-    (findOrAddCore i v w m).2.lastLen = m.lastLen := by
-  rcases findOrAddCore_cases m i v w (fun u hu => hr.isSome u hu) with h | ⟨_, _, _, _, n, c1, c2, _, _, _, _, _, h⟩
-  · rw [h]
-  · rw [h]
-
-theorem incref_err_key {u : Int} {m m' : Mgr} {e : Err} (h : incref u m = (.error e, m')) : e = .key := by
-  unfold incref at h
-  split at h
-  · cases h; rfl
-  · cases h
-
-theorem findOrAddCore_ne_signal (m : Mgr) (i : Nat) (v w : Int) :
-    (findOrAddCore i v w m).1 ≠ .error .needsReordering := by
-  unfold findOrAddCore
-  split
-  · simp
-  split
-  · simp
-  split
-  · simp
-  dsimp only
-  generalize (if w < 0 then -v else v) = v'
-  generalize (if w < 0 then -w else w) = w'
-  generalize (if w < 0 then (-1:Int) else 1) = r
-  split
-  · simp
-  split
-  · simp
-  split
-  · simp
-  split
-  · simp
-  split
-  · next e m2 heq => rw [incref_err_key heq]; simp
-  · split
-    · next e m3 heq => rw [incref_err_key heq]; simp
-    · simp
-
-/-- with reordering not enabled, `find_or_add` is the raw operation after the test of the level -/
-theorem findOrAdd_off_eq (m : Mgr) (ho : m.lastLen = none) (i : Int) (v w : Int) :
-    findOrAdd i v w m = if i < 0 then (.error .value, m) else findOrAddCore i.toNat v w m := by
-  have hq : requestReordering m = (.ok (), m) := by unfold requestReordering; rw [ho]
-  unfold findOrAdd
-  by_cases hc : m.ctx = true
-  · simp only [hc, if_true, hq]
-  · simp only [hc, Bool.false_eq_true, if_false]
-
-theorem findOrAdd_rk (ext : Nat → Nat) (m : Mgr) (i v w : Int)
-    (hc : m.tbl.Closed) (ho : m.lastLen = none) (hr : RefExact m ext) :
-    RKpost ext (findOrAdd i v w m) := by
-  rw [findOrAdd_off_eq m ho]
-  split
-  · exact ⟨hc, ho, hr, by simp⟩
-  · exact ⟨findOrAddCore_closed m ext _ v w hc hr,
-      by rw [findOrAddCore_lastLen m ext _ v w hr]; exact ho,
-      findOrAddCore_refExact_of_closed m ext _ v w hc hr, findOrAddCore_ne_signal m _ v w⟩
-
-/-- exact counts through `_ite` (reordering not enabled): every state change inside is a
-`find_or_add` or an insertion into the computed table -/
-theorem iteF_refExact_auto (ext : Nat → Nat) : ∀ (f : Nat) (m : Mgr) (g u v : Int),
-    m.tbl.Closed → m.lastLen = none → RefExact m ext → RKpost ext (iteF f g u v m) := by
-  intro f
-  induction f with
-  | zero =>
-    intro m g u v hc ho hr
-    exact ⟨hc, ho, hr, by simp [iteF]⟩
-  | succ f ih =>
-    intro m g u v hc ho hr
-    have hbase : ∀ (e : Err), e ≠ .needsReordering →
-        RKpost ext ((Except.error e, m) : Except Err Int × Mgr) :=
-      fun e he => ⟨hc, ho, hr, by simpa using he⟩
-    unfold iteF
-    by_cases hg1 : g = 1
-    · simp only [hg1, if_true]
-      exact ⟨hc, ho, hr, by simp⟩
-    · simp only [hg1, if_false]
-      by_cases hgm1 : g = -1
-      · simp only [hgm1, if_true]
-        exact ⟨hc, ho, hr, by simp⟩
-      · simp only [hgm1, if_false]
-        cases hcache : m.cache[iteKey g u v]? with
-        | some w =>
-          simp only
-          exact ⟨hc, ho, hr, by simp⟩
+/-- `add_var(name, level)` under the no-gap guard: nothing happens, or a NEW variable is appended
+at the bottom level -/
+theorem addVar_cases_auto (m : Mgr) (hO : OrderOK m.tbl) (name : String) (level : Option Int)
+    (hg : ∀ l : Int, level = some l → m.tbl.vars[name]? = none → l ≤ (m.nvars : Int)) :
+    (addVar name level m).2 = m ∨
+    (m.tbl.vars[name]? = none ∧ addVar name level m = (.ok m.nvars, addVarState m name)) := by
+  cases hex : m.tbl.vars[name]? with
+  | some vl =>
+    left
+    cases level with
+    | none => simp [addVar, bind, M.bind', M.get, hex, pure, M.pure']
+    | some l =>
+      by_cases hl : l = vl
+      · simp [addVar, bind, M.bind', M.get, hex, pure, M.pure', hl]
+      · simp [addVar, bind, M.bind', M.get, hex, hl, M.throw]
+  | none =>
+    cases level with
+    | none =>
+      right
+      exact ⟨rfl, addVar_new m name hex hO.l2v_none⟩
+    | some l =>
+      by_cases hneg : l < 0
+      · left
+        simp [addVar, bind, M.bind', M.get, hex, hneg, M.throw]
+      · cases hl : m.tbl.l2v[l.toNat]? with
+        | some other =>
+          left
+          simp [addVar, bind, M.bind', M.get, hex, hneg, hl, M.throw]
         | none =>
-          simp only
-          split
-          · next lg lu lv _ _ _ =>
-            split
-            · next g0 g1 u0 u1 v0 v1 _ _ _ =>
-              have h1 := ih m g0 u0 v0 hc ho hr
-              generalize iteF f g0 u0 v0 m = res1 at h1 ⊢
-              obtain ⟨r1, m1⟩ := res1
-              cases r1 with
-              | error e => exact h1
-              | ok p =>
-                simp only
-                have h2 := ih m1 g1 u1 v1 h1.1 h1.2.1 h1.2.2.1
-                generalize iteF f g1 u1 v1 m1 = res2 at h2 ⊢
-                obtain ⟨r2, m2⟩ := res2
-                cases r2 with
-                | error e => exact h2
-                | ok q =>
-                  simp only
-                  have h3 := findOrAdd_rk ext m2 (↑(min lg (min lu lv))) p q h2.1 h2.2.1 h2.2.2.1
-                  generalize findOrAdd (↑(min lg (min lu lv))) p q m2 = res3 at h3 ⊢
-                  obtain ⟨r3, m3⟩ := res3
-                  cases r3 with
-                  | error e => exact h3
-                  | ok w =>
-                    simp only
-                    exact ⟨h3.1, h3.2.1, ⟨h3.2.2.1.dom, h3.2.2.1.cnt, h3.2.2.1.extZero⟩, by simp⟩
-            all_goals
-              refine hbase _ (fun h => ?_)
-              subst h
-              first
-                | exact absurd (by assumption) (topCofactor_ne_signal m.tbl g _)
-                | exact absurd (by assumption) (topCofactor_ne_signal m.tbl u _)
-                | exact absurd (by assumption) (topCofactor_ne_signal m.tbl v _)
-          · exact hbase _ (by simp)
+          right
+          refine ⟨rfl, ?_⟩
+          have hle := hg l rfl hex
+          have hge : m.nvars ≤ l.toNat := by
+            rcases Nat.lt_or_ge l.toNat m.nvars with h | h
+            · obtain ⟨v, hv⟩ := hO.total l.toNat h
+              rw [hl] at hv; cases hv
+            · exact h
+          have heq : l.toNat = m.nvars := by omega
+          rw [heq] at hl
+          simp only [addVar, bind, M.bind', M.get, hex, Option.getD_some, hneg, if_false, pure, M.pure',
+            hl, M.set, heq]
+          rfl
 
-theorem RKpost.setCtx {ext : Nat → Nat} {α : Type} {r : Except Err α} {m1 : Mgr} (c : Bool)
-    (h : RKpost ext (r, m1)) : RKpost ext (r, { m1 with ctx := c }) :=
-  ⟨h.1, h.2.1, ⟨h.2.2.1.dom, h.2.2.1.cnt, h.2.2.1.extZero⟩, h.2.2.2⟩
+/-- (as `VarsBij.ofOrderOK` of DDProps.C05) -/
+theorem varsBij_of_orderOK {t : Tbl} (h : OrderOK t) : VarsBij t :=
+  ⟨fun v i hv => (h.inv v i).mp hv, fun i v hl => (h.inv v i).mpr hl, h.lt,
+   fun i hi => by obtain ⟨v, hv⟩ := h.total i hi; exact ⟨v, (h.inv v i).mpr hv⟩⟩
 
-/-- the decorator around a body that never signals (reordering not enabled) -/
-theorem tryToReorder_rk {α : Type} (ext : Nat → Nat) (f : M α) (m : Mgr)
-    (h : RKpost ext (f { m with ctx := true })) : RKpost ext (tryToReorder f m) := by
-  generalize hres : f { m with ctx := true } = res at h
-  obtain ⟨r, m1⟩ := res
-  cases r with
-  | ok a => rw [tryToReorder_ok f m a m1 hres]; exact h.setCtx _
-  | error e =>
-    have hne : e ≠ .needsReordering := fun he => h.2.2.2 (by rw [he])
-    rw [tryToReorder_err f m e m1 hres hne]; exact h.setCtx _
+/-- every variable of the support of `u` in the source is declared in the target (as `CopyPre`
+of DDProofs.DynCopy) -/
+def CopyPreA (s : Tbl) (u : Int) (t : Tbl) : Prop :=
+  ∀ i v, InSupp s u i → s.l2v[i]? = some v → t.vars.contains v = true
 
-theorem ite_rk (ext : Nat → Nat) (m : Mgr) (g u v : Int)
-    (hc : m.tbl.Closed) (ho : m.lastLen = none) (hr : RefExact m ext) : RKpost ext (ite g u v m) := by
-  unfold ite
-  apply tryToReorder_rk
-  have : iteRaw g u v { m with ctx := true } = iteF (m.nvars + 2) g u v { m with ctx := true } := by
-    simp [iteRaw, bind, M.bind', M.get, Mgr.nvars]
-  rw [this]
-  exact iteF_refExact_auto ext _ _ g u v hc ho ⟨hr.dom, hr.cnt, hr.extZero⟩
+/-! ### packaging -/
 
 /-- a step that only adds nodes and keeps the order keeps the meaning (by name) of every node -/
 theorem heldExt_of_kept {m m' : Mgr} (hI : Inv m) (h : Kept m m') (ext : Nat → Nat) :
@@ -214,376 +96,187 @@ theorem heldExt_of_kept {m m' : Mgr} (hI : Inv m) (h : Kept m m') (ext : Nat →
   obtain ⟨hm, hd⟩ := h.den hI u hu
   exact ⟨hm, fun σ => denN_of_same_l2v h.frame.l2v u σ hd⟩
 
-/-- packaging: `Kept` (invariant, extension, frame) and exact counts give `CoreKeepsAt` -/
-theorem coreKeepsAt_of_kept {α : Type} {off : Bool} {op : M α} {m : Mgr}
-    (hk : Inv m → ModeOK off m → Kept m (op m).2)
-    (hr : ∀ ext, Inv m → ModeOK off m → RefExact m ext → RefExact (op m).2 ext) :
-    CoreKeepsAt off m op := by
-  intro ext hm hi hc r m' he
+theorem MInv.of_kept {off : Bool} {ext : Nat → Nat} {m m' : Mgr} (h : MInv off ext m) (k : Kept m m')
+    (hr : RefExact m' ext) : MInv off ext m' :=
+  ⟨k.inv, h.order.congr_auto k.frame.vars k.frame.l2v, hr, by rw [k.frame.ctx]; exact h.ctx,
+   by rw [k.frame.sched]; exact h.sched, by rw [k.frame.roots]; exact h.roots,
+   h.mode.transfer k.frame.lastLen (by rw [Mgr.nvars, Mgr.nvars, k.ext.nvars]; exact Nat.le_refl _)⟩
+
+theorem MInv.lite {ext : Nat → Nat} {m : Mgr} (h : MInv true ext m) : Lite ext m :=
+  h.inv.lite h.counts (h.mode.1 rfl)
+
+/-- `Kept` for every state with exact counts and reordering not enabled, plus exact counts
+afterwards, is all `CoreKeepsAt true` asks for -/
+theorem keepsAtOff_of {α : Type} {op : M α} {m : Mgr}
+    (hk : ∀ ext, Inv m → RefExact m ext → m.lastLen = none → Kept m (op m).2)
+    (hl : ∀ ext, Lite ext m → RefExact (op m).2 ext) : CoreKeepsAt true m op := by
+  intro ext hm r m' he
   have h2 : (op m).2 = m' := by rw [he]
-  have k := hk hi hm
-  rw [h2] at k
-  have r' := hr ext hi hm hc
-  rw [h2] at r'
-  exact ⟨k.inv, r', heldExt_of_kept hi k ext, fun ho => by rw [k.frame.lastLen]; exact hm ho⟩
+  have k := hk ext hm.inv hm.counts (hm.mode.1 rfl)
+  have r' := hl ext hm.lite
+  rw [h2] at k r'
+  exact ⟨hm.of_kept k r', heldExt_of_kept hm.inv k ext⟩
 
-/-- `BDD.ite(g, u, v)` on ARBITRARY integers, reordering not enabled -/
+/-- `MInv true` without the flag (inside a decorated call the flag is set) -/
+structure MInvC (ext : Nat → Nat) (m : Mgr) : Prop where
+  inv : Inv m
+  order : OrderOK m.tbl
+  counts : RefExact m ext
+  sched : m.sched = []
+  roots : m.roots = []
+  off : m.lastLen = none
+
+theorem MInv.toC {ext : Nat → Nat} {m : Mgr} (h : MInv true ext m) : MInvC ext m :=
+  ⟨h.inv, h.order, h.counts, h.sched, h.roots, h.mode.1 rfl⟩
+
+/-! ### the decorated operations, ARBITRARY arguments, reordering not enabled -/
+
 theorem ite_keepsOff (g u v : Int) : CoreKeeps true (ite g u v) :=
-  ⟨fun m => coreKeepsAt_of_kept
-    (fun hi hm => ite_total m hi (hm rfl) g u v)
-    (fun ext hi hm hc => (ite_rk ext m g u v hi.wf.toWF.closed (hm rfl) hc).2.2.1)⟩
+  ⟨fun m => keepsAtOff_of (fun _ hi _ ho => ite_total m hi ho g u v)
+    (fun ext hl => (ite_lite ext g u v m hl).1.exact)⟩
 
-/-- an operator alias that does not quantify -/
-def NonQuant (op : String) : Prop :=
-  ∀ row, findRow op Gen.applyTable = some row → ∀ fa f b, row.templ ≠ .quant fa f b
+/-- `apply` with ANY operator string (quantifier aliases included), arity and operands -/
+theorem apply_keepsOff (op : String) (u : Int) (v w : Option Int) : CoreKeeps true (apply op u v w) :=
+  ⟨fun m => keepsAtOff_of (fun ext hi hr ho => apply_total' m ext hi hr ho op u v w)
+    (fun ext hl => (apply_lite ext op u v w m hl).exact)⟩
 
-/-- exact counts through `apply` for the aliases that do not quantify -/
-theorem apply_refExact_nq (ext : Nat → Nat) (m : Mgr) (op : String) (u : Int) (v w : Option Int)
-    (hnq : NonQuant op) (hc : m.tbl.Closed) (ho : m.lastLen = none) (hr : RefExact m ext) :
-    RefExact (apply op u v w m).2 ext := by
-  unfold apply
-  cases assertOperatorArity op v w with
-  | error e => exact hr
-  | ok _ =>
-    simp only
-    split
-    · exact hr
-    · split
-      · exact hr
-      · split
-        · exact hr
-        · cases hrow : findRow op Gen.applyTable with
-          | none => exact hr
-          | some row =>
-            simp only
-            cases ht : row.templ with
-            | neg => exact hr
-            | notImpl => exact hr
-            | bad => exact hr
-            | quant fa f b => exact absurd ht (hnq row hrow fa f b)
-            | ite a b c =>
-              simp only
-              cases v with
-              | none => exact hr
-              | some vv =>
-                simp only
-                split
-                · exact hr
-                · split
-                  · exact (ite_rk ext m _ _ _ hc ho hr).2.2.1
-                  · exact hr
-                  · exact hr
-                  · exact hr
+theorem var_keepsOff (name : String) : CoreKeeps true (var name) :=
+  ⟨fun m => keepsAtOff_of (fun ext hi hr ho => var_total m ext hi hr ho name)
+    (fun ext hl => (var_lite ext name m hl).1.exact)⟩
 
-/-- `BDD.apply(op, u, v, w)` with ANY arity and operands, for the aliases that do not quantify
-(reordering not enabled) -/
-theorem apply_keepsOff (op : String) (u : Int) (v w : Option Int) (hnq : NonQuant op) :
-    CoreKeeps true (apply op u v w) :=
-  ⟨fun m => coreKeepsAt_of_kept
-    (fun hi hm => apply_total m hi (hm rfl) op u v w hnq)
-    (fun ext hi hm hc => apply_refExact_nq ext m op u v w hnq hi.wf.toWF.closed (hm rfl) hc)⟩
+theorem quantify_keepsOff (u : Int) (q : List Key) (fa : Bool) : CoreKeeps true (quantify u q fa) :=
+  ⟨fun m => keepsAtOff_of (fun ext hi hr ho => quantify_total m ext hi hr ho u q fa)
+    (fun ext hl => (quantify_lite ext u q fa m hl).1.exact)⟩
 
-/-- the aliases that `Function.__invert__ / __and__ / __or__ / implies / equiv` and `__le__` use -/
-theorem nonQuant_not : NonQuant "not" := by
-  intro row h; simp [Gen.applyTable, findRow] at h; subst h; intro fa f b; simp
-theorem nonQuant_or : NonQuant "or" := by
-  intro row h; simp [Gen.applyTable, findRow] at h; subst h; intro fa f b; simp
-theorem nonQuant_and : NonQuant "and" := by
-  intro row h; simp [Gen.applyTable, findRow] at h; subst h; intro fa f b; simp
-theorem nonQuant_implies : NonQuant "implies" := by
-  intro row h; simp [Gen.applyTable, findRow] at h; subst h; intro fa f b; simp
-theorem nonQuant_equiv : NonQuant "equiv" := by
-  intro row h; simp [Gen.applyTable, findRow] at h; subst h; intro fa f b; simp
+/-- `let` with Booleans / nodes / names: ANY node, ANY dictionary -/
+theorem letOp_keepsOff (d : LetArg) (u : Int) : CoreKeeps true (letOp d u) :=
+  ⟨fun m => keepsAtOff_of (fun ext hi hr ho => letOp_total m ext hi hr ho d u)
+    (fun ext hl => (letOp_lite ext d u m hl).1.exact)⟩
 
-/-! ### `var` -/
+/-- the raw `find_or_add` under its documented guard (level above both children) -/
+theorem findOrAdd_keepsAtOff (m : Mgr) (i v w : Int) (hg : 0 ≤ i → FoaGuard m i.toNat v w) :
+    CoreKeepsAt true m (findOrAdd i v w) :=
+  keepsAtOff_of (fun _ hi _ ho => findOrAdd_kept m hi ho i v w hg)
+    (fun ext hl => (findOrAdd_lite ext m hl i v w).1.exact)
 
-theorem kept_setCtx {m m1 : Mgr} (h : Kept { m with ctx := true } m1) : Kept m { m1 with ctx := m.ctx } :=
-  ⟨h.inv.setCtx _, h.ext,
-   ⟨h.frame.vars, h.frame.l2v, h.frame.lastLen, rfl, h.frame.sched, h.frame.roots⟩⟩
+/-! ### `copy_bdd` into this manager -/
 
-/-- the decorator around a body that is `Kept` and never signals -/
-theorem tryToReorder_kept {α : Type} (f : M α) (m : Mgr)
-    (hk : Kept { m with ctx := true } (f { m with ctx := true }).2)
-    (hs : (f { m with ctx := true }).1 ≠ .error .needsReordering) :
-    Kept m (tryToReorder f m).2 := by
-  generalize hres : f { m with ctx := true } = res at hk hs
+theorem copyBddBody_lite (ext : Nat → Nat) (s : Tbl) (u : Int) (m : Mgr) (h : Lite ext m) :
+    LiteOut ext (copyBddBody s u m) := by
+  unfold copyBddBody
+  have h1 := copyBddF_lite ext (some s) (copyMap s m.tbl) (s.nvars + 2) u {} m h
+  generalize copyBddF (some s) (copyMap s m.tbl) (s.nvars + 2) u {} m = res at h1 ⊢
   obtain ⟨r, m1⟩ := res
   cases r with
-  | ok a => rw [tryToReorder_ok f m a m1 hres]; exact kept_setCtx hk
-  | error e =>
-    have hne : e ≠ .needsReordering := fun he => hs (by rw [he])
-    rw [tryToReorder_err f m e m1 hres hne]; exact kept_setCtx hk
+  | error e => exact h1.reErr
+  | ok rc => exact ⟨h1.1, by simp⟩
 
-/-- the body of `var` -/
-def varBody (name : String) : M Int := do
-  let m ← M.get
-  match m.tbl.vars[name]? with
-  | none => M.throw .value
-  | some j => findOrAdd j (-1) 1
-
-theorem var_eq (name : String) : var name = tryToReorder (varBody name) := rfl
-
-theorem varBody_eq (name : String) (m : Mgr) (ho : m.lastLen = none) :
-    varBody name m = match m.tbl.vars[name]? with
-      | none => (.error .value, m)
-      | some j => findOrAddCore j (-1) 1 m := by
-  unfold varBody
-  show (match m.tbl.vars[name]? with | none => M.throw .value | some j => findOrAdd (↑j) (-1) 1) m = _
-  cases m.tbl.vars[name]? with
-  | none => rfl
-  | some j =>
-    simp only
-    rw [findOrAdd_off_eq m ho]
-    have : ¬ ((j : Int) < 0) := by omega
-    simp [this]
-
-theorem foaGuard_terminals (m : Mgr) (j : Nat) : FoaGuard m j (-1) 1 := by
-  intro hj _ _
-  have h1 : m.tbl.levelOf (-1) = m.tbl.nvars := by simp [Tbl.levelOf]
-  have h2 : m.tbl.levelOf 1 = m.tbl.nvars := by simp [Tbl.levelOf]
-  rw [h1, h2]; exact ⟨hj, hj⟩
-
-theorem varBody_kept_rk (name : String) (m : Mgr) (ext : Nat → Nat) (hi : Inv m)
-    (ho : m.lastLen = none) (hc : RefExact m ext) :
-    Kept m (varBody name m).2 ∧ RKpost ext (varBody name m) := by
-  have hcl : m.tbl.Closed := hi.wf.toWF.closed
-  rw [varBody_eq name m ho]
-  cases m.tbl.vars[name]? with
-  | none => exact ⟨Kept.refl hi, hcl, ho, hc, by simp⟩
-  | some j =>
-    exact ⟨findOrAddCore_total m hi j (-1) 1 (foaGuard_terminals m j),
-      findOrAddCore_closed m ext j (-1) 1 hcl hc,
-      by rw [findOrAddCore_lastLen m ext j (-1) 1 hc]; exact ho,
-      findOrAddCore_refExact_of_closed m ext j (-1) 1 hcl hc, findOrAddCore_ne_signal m j (-1) 1⟩
-
-/-- `BDD.var(name)` for ANY name, reordering not enabled -/
-theorem var_keepsOff (name : String) : CoreKeeps true (var name) := by
-  refine ⟨fun m => coreKeepsAt_of_kept (fun hi hm => ?_) (fun ext hi hm hc => ?_)⟩
-  · rw [var_eq]
-    have ho : ({ m with ctx := true } : Mgr).lastLen = none := hm rfl
-    apply tryToReorder_kept
-    · rw [varBody_eq name _ ho]
-      cases ({ m with ctx := true } : Mgr).tbl.vars[name]? with
-      | none => exact Kept.refl (hi.setCtx true)
-      | some j => exact findOrAddCore_total _ (hi.setCtx true) j (-1) 1 (foaGuard_terminals _ j)
-    · rw [varBody_eq name _ ho]
-      cases ({ m with ctx := true } : Mgr).tbl.vars[name]? with
-      | none => simp
-      | some j => exact findOrAddCore_ne_signal _ j (-1) 1
-  · rw [var_eq]
-    have ho : ({ m with ctx := true } : Mgr).lastLen = none := hm rfl
-    have hc' : RefExact { m with ctx := true } ext := ⟨hc.dom, hc.cnt, hc.extZero⟩
-    exact (tryToReorder_rk ext (varBody name) m
-      (varBody_kept_rk name _ ext (hi.setCtx true) ho hc').2).2.2.1
+/-- `copy_bdd(u, source, this)`: source well-formed, `u` a node of it, every variable of the
+support of `u` declared here (the caller's obligation; otherwise `KeyError` half-way) -/
+theorem copyBdd_keepsAtOff (s : Tbl) (hS : WF s) (hOs : OrderOK s) (u : Int) (hu : s.Mem u) (m : Mgr)
+    (hO : OrderOK m.tbl) (hsup : CopyPreA s u m.tbl) : CoreKeepsAt true m (copyBdd s u) :=
+  keepsAtOff_of
+    (fun _ hi _ ho => by
+      obtain ⟨r, m', he, hI', hE, _, hF, _⟩ :=
+        copyBdd_spec s hS (varsBij_of_orderOK hOs) m hi ho (varsBij_of_orderOK hO) u hu hsup
+      rw [he]; exact ⟨hI', hE, hF⟩)
+    (fun ext hl => (tryToReorder_lite ext _ (copyBddBody_lite ext s u) m hl).1.exact)
 
 /-! ### `collect_garbage` (every mode) -/
 
 theorem gc_keeps {off : Bool} : CoreKeeps off (collectGarbage none) := by
-  refine ⟨fun m ext hm hi hc r m' he => ?_⟩
-  obtain ⟨m2, h2, hp⟩ := collectGarbage_spec m ext hi hc
+  refine ⟨fun m ext hm r m' he => ?_⟩
+  obtain ⟨m2, h2, hp⟩ := collectGarbage_spec m ext hm.inv hm.counts
   rw [h2] at he
   cases he
-  refine ⟨hp.inv, hp.refExact, ?_, fun ho => by rw [hp.sub.lastLen]; exact hm ho⟩
+  refine ⟨⟨hp.inv, hm.order.congr_auto hp.sub.vars hp.sub.l2v, hp.refExact, by rw [hp.sub.ctx]; exact hm.ctx,
+    by rw [hp.sub.sched]; exact hm.sched, by rw [hp.sub.roots]; exact hm.roots,
+    hm.mode.transfer hp.sub.lastLen (by simp only [Mgr.nvars, Tbl.nvars, hp.sub.vars]; exact Nat.le_refl _)⟩, ?_⟩
   intro u hu hpos
-  have hs : u.natAbs = 1 ∨ (m'.tbl.node? u.natAbs).isSome :=
-    reach_survives hp.sub hp.inv.toInvS hp.refExact hi.toInvS (GcReach.root hpos)
-  have hmem : m'.tbl.Mem u := hs
-  refine ⟨hmem, fun σ => denN_of_same_l2v hp.sub.l2v u σ (fun a => ?_)⟩
-  exact den_sub hp.sub hp.inv.wf.toWF u hmem a
+  have hmem : m'.tbl.Mem u :=
+    reach_survives hp.sub hp.inv.toInvS hp.refExact hm.inv.toInvS (GcReach.root hpos)
+  exact ⟨hmem, fun σ => denN_of_same_l2v hp.sub.l2v u σ (fun a => hp.den_eq u hmem a)⟩
 
-/-! ### `quantify` -/
+/-! ### `add_var` / `declare` (every mode: they never reorder) -/
 
-/-- exact counts through `_quantify` (reordering not enabled) -/
-theorem quantifyF_rk (ext : Nat → Nat) (Q : List Nat) (fa : Bool) :
-    ∀ (f : Nat) (m : Mgr) (u : Int) (ordvar : List Nat) (cache : HashMap Int Int),
-    m.tbl.Closed → m.lastLen = none → RefExact m ext →
-    RKpost ext (quantifyF Q fa f u ordvar cache m) := by
-  intro f
-  induction f with
-  | zero =>
-    intro m u ordvar cache hc ho hr
-    exact ⟨hc, ho, hr, by simp [quantifyF]⟩
-  | succ f ih =>
-    intro m u ordvar cache hc ho hr
-    have hbase : ∀ {β : Type} (r : Except Err β), r ≠ .error .needsReordering →
-        RKpost ext ((r, m) : Except Err β × Mgr) := fun r he => ⟨hc, ho, hr, he⟩
-    unfold quantifyF
-    split
-    · exact hbase _ (by simp)
-    split
-    · exact hbase _ (by simp)
-    split
-    · exact hbase _ (by simp)
-    split
-    · exact hbase _ (by simp)
-    dsimp only
-    split
-    · exact hbase _ (by simp)
-    next n _ _ _ =>
-    generalize (if u < 0 then -n.lo else n.lo) = v
-    generalize (if u < 0 then -n.hi else n.hi) = w
-    generalize List.dropWhile (fun x => decide (x < n.lvl)) ordvar = ov
-    have h1 := ih m v ov cache hc ho hr
-    generalize quantifyF Q fa f v ov cache m = res1 at h1 ⊢
-    obtain ⟨r1, m1⟩ := res1
-    cases r1 with
-    | error e => exact h1
-    | ok pc =>
-      obtain ⟨p, c1⟩ := pc
-      simp only
-      have h2 := ih m1 w ov c1 h1.1 h1.2.1 h1.2.2.1
-      generalize quantifyF Q fa f w ov c1 m1 = res2 at h2 ⊢
-      obtain ⟨r2, m2⟩ := res2
-      cases r2 with
-      | error e => exact h2
-      | ok qc =>
-        obtain ⟨q, c2⟩ := qc
-        simp only
-        have h3 : RKpost ext (if Q.contains n.lvl then
-            (if fa then ite p q (-1) m2 else ite p 1 q m2) else findOrAdd n.lvl p q m2) := by
-          split
-          · split
-            · exact ite_rk ext m2 _ _ _ h2.1 h2.2.1 h2.2.2.1
-            · exact ite_rk ext m2 _ _ _ h2.1 h2.2.1 h2.2.2.1
-          · exact findOrAdd_rk ext m2 _ p q h2.1 h2.2.1 h2.2.2.1
-        generalize (if Q.contains n.lvl then
-            (if fa then ite p q (-1) m2 else ite p 1 q m2) else findOrAdd n.lvl p q m2) = res3 at h3 ⊢
-        obtain ⟨r3, m3⟩ := res3
-        cases r3 with
-        | error e =>
-          refine ⟨h3.1, h3.2.1, h3.2.2.1, ?_⟩
-          intro h
-          simp only [Except.error.injEq] at h
-          exact h3.2.2.2 (by rw [h])
-        | ok r => exact ⟨h3.1, h3.2.1, h3.2.2.1, by simp⟩
+/-- the level assignments of two orders agree below `n` when the names of these levels agree -/
+theorem lift_agree {t t' : Tbl} (σ : AsgN) (n : Nat)
+    (h : ∀ i, i < n → t'.l2v[i]? = t.l2v[i]?) : ∀ i, i < n → t'.lift σ i = t.lift σ i := by
+  intro i hi
+  unfold Tbl.lift Tbl.nameOf
+  rw [h i hi]
 
-theorem mapME_err {α β : Type} (f : α → Except Err β) : ∀ (l : List α) (e : Err),
-    mapME f l = .error e → ∃ a, f a = .error e
-  | [], e, h => by simp [mapME] at h
-  | a :: l, e, h => by
-    unfold mapME at h
-    cases hfa : f a with
-    | error e' =>
-      rw [hfa] at h
-      simp only [Except.error.injEq] at h
-      exact ⟨a, by rw [hfa, h]⟩
-    | ok b =>
-      rw [hfa] at h
-      simp only at h
-      cases hl : mapME f l with
-      | error e' =>
-        rw [hl] at h
-        simp only [Except.error.injEq] at h
-        exact mapME_err f l e (by rw [hl, h])
-      | ok bs => rw [hl] at h; cases h
+theorem addVar_ne_signal (m : Mgr) (name : String) (level : Option Int) :
+    (addVar name level m).1 ≠ .error .needsReordering := by
+  cases hex : m.tbl.vars[name]? with
+  | some vl =>
+    cases level with
+    | none => simp [addVar, bind, M.bind', M.get, hex, pure, M.pure']
+    | some l =>
+      by_cases hl : l = vl
+      · simp [addVar, bind, M.bind', M.get, hex, pure, M.pure', hl]
+      · simp [addVar, bind, M.bind', M.get, hex, hl, M.throw]
+  | none =>
+    by_cases hneg : level.getD (m.nvars : Int) < 0
+    · simp [addVar, bind, M.bind', M.get, hex, hneg, M.throw]
+    · cases hl : m.tbl.l2v[(level.getD (m.nvars : Int)).toNat]? with
+      | some o => simp [addVar, bind, M.bind', M.get, hex, hneg, hl, M.throw]
+      | none => simp [addVar, bind, M.bind', M.get, hex, hneg, hl, M.set, pure, M.pure']
 
-theorem keyVarLevel_err (t : Tbl) (k : Key) (e : Err) (h : keyVarLevel t k = .error e) : e = .key := by
-  unfold keyVarLevel at h
-  split at h
-  · split at h
-    · cases h
-    · cases h; rfl
-  · cases h; rfl
+/-- `add_var(name, level)` under the no-gap guard (finding F7), any mode: invariant, order, exact
+counts and all switches are kept; the names of the existing levels stay, so every node keeps its
+meaning by name; the signal is never raised -/
+theorem addVar_effect (m : Mgr) (ext : Nat → Nat) (hi : Inv m) (hO : OrderOK m.tbl) (hr : RefExact m ext)
+    (name : String) (level : Option Int)
+    (hg : ∀ l : Int, level = some l → m.tbl.vars[name]? = none → l ≤ (m.nvars : Int)) :
+    Inv (addVar name level m).2 ∧ OrderOK (addVar name level m).2.tbl ∧
+    RefExact (addVar name level m).2 ext ∧ (addVar name level m).2.ctx = m.ctx ∧
+    (addVar name level m).2.sched = m.sched ∧ (addVar name level m).2.roots = m.roots ∧
+    (addVar name level m).2.lastLen = m.lastLen ∧
+    HeldExt m.tbl (addVar name level m).2.tbl ext ∧
+    (addVar name level m).1 ≠ .error .needsReordering ∧
+    m.nvars ≤ (addVar name level m).2.nvars := by
+  have hns : (addVar name level m).1 ≠ .error .needsReordering := addVar_ne_signal m name level
+  rcases addVar_cases_auto m hO name level hg with hsame | ⟨hnew, hrun⟩
+  · rw [hsame]
+    exact ⟨hi, hO, hr, rfl, rfl, rfl, rfl, HeldExt.refl _ _, hns, Nat.le_refl _⟩
+  · have hnv : m.nvars ≤ (addVar name level m).2.nvars := by
+      rw [hrun]
+      have := (addVar_new_spec m hi hO name hnew _ rfl).2.2.1
+      show m.tbl.nvars ≤ (addVarState m name).tbl.nvars
+      omega
+    refine ⟨?_, ?_, ?_, ?_, ?_, ?_, ?_, ?_, hns, hnv⟩ <;> rw [hrun] <;> simp only
+    all_goals
+      obtain ⟨hI, hO', hn, _, hmono, hden, _, _⟩ := addVar_new_spec m hi hO name hnew _ rfl
+    · exact hI
+    · exact hO'
+    · exact hr.congr_nodes_auto (fun _ => rfl) rfl
+    · rfl
+    · rfl
+    · rfl
+    · rfl
+    · intro u hu _
+      obtain ⟨hmem, hd⟩ := hden u hu
+      refine ⟨hmem, fun σ => ?_⟩
+      unfold denN
+      rw [hd]
+      apply den_agree_ge m.tbl hi.wf.toWF u hu
+      intro i _ hi'
+      apply lift_agree σ m.tbl.nvars _ i hi'
+      intro j hj
+      obtain ⟨v, hv⟩ := hO.total j hj
+      have h1 : m.tbl.vars[v]? = some j := (hO.inv v j).mpr hv
+      rw [hv]
+      exact (hO'.inv v j).mp (hmono v j h1)
 
-theorem ite_ne' {α : Type} {c : Prop} [Decidable c] {x y z : α} (hx : x ≠ z) (hy : y ≠ z) :
-    (if c then x else y) ≠ z := by
-  split <;> assumption
-
-theorem mapToLevelE_ne_signal (t : Tbl) (keys : List Key) :
-    mapToLevelE t keys ≠ .error .needsReordering := by
-  cases keys with
-  | nil => simp [mapToLevelE]
-  | cons k0 rest =>
-    unfold mapToLevelE
-    dsimp only
-    refine ite_ne' (ite_ne' (by simp) (by simp)) ?_
-    intro h
-    obtain ⟨a, ha⟩ := mapME_err _ _ _ h
-    have := keyVarLevel_err t a _ ha
-    cases this
-
-theorem setCtx_back (m : Mgr) : ({ ({ m with ctx := true } : Mgr) with ctx := m.ctx } : Mgr) = m := rfl
-
-/-- the body of `quantify`: `Kept` for a stored operand, exact counts for any operand -/
-theorem quantifyBody_rk (ext : Nat → Nat) (m : Mgr) (u : Int) (q : List Key) (fa : Bool)
-    (hc : m.tbl.Closed) (ho : m.lastLen = none) (hr : RefExact m ext) :
-    RKpost ext (quantifyBody u q fa m) := by
-  unfold quantifyBody
-  cases hl : mapToLevelE m.tbl q with
-  | error e =>
-    simp only
-    exact ⟨hc, ho, hr, fun h => by
-      simp only [Except.error.injEq] at h
-      exact mapToLevelE_ne_signal m.tbl q (by rw [hl, h])⟩
-  | ok lv =>
-    simp only
-    have h1 := quantifyF_rk ext lv fa (m.nvars + 2) m u (sortNat (dedup lv)) {} hc ho hr
-    generalize quantifyF lv fa (m.nvars + 2) u (sortNat (dedup lv)) {} m = res at h1 ⊢
-    obtain ⟨r, m1⟩ := res
-    cases r with
-    | error e =>
-      refine ⟨h1.1, h1.2.1, h1.2.2.1, ?_⟩
-      intro h
-      simp only [Except.error.injEq] at h
-      exact h1.2.2.2 (by rw [h])
-    | ok rc => exact ⟨h1.1, h1.2.1, h1.2.2.1, by simp⟩
-
-/-- `BDD.quantify(u, qvars, forall)` for a stored operand and ANY keys, reordering not enabled -/
-theorem quantify_keepsAtOff (m : Mgr) (u : Int) (hu : m.tbl.Mem u) (q : List Key) (fa : Bool) :
-    CoreKeepsAt true m (quantify u q fa) := by
-  refine coreKeepsAt_of_kept (fun hi hm => ?_) (fun ext hi hm hc => ?_)
-  · cases hl : mapToLevelE m.tbl q with
-    | ok lv =>
-      obtain ⟨r, m', he, hI', hE, _, hF, _⟩ := quantify_spec m hi (hm rfl) u hu q fa lv hl
-      rw [he]; exact ⟨hI', hE, hF⟩
-    | error e =>
-      have hb : quantifyBody u q fa { m with ctx := true } = (.error e, { m with ctx := true }) := by
-        unfold quantifyBody
-        show (match mapToLevelE m.tbl q with | .error e => _ | .ok lv => _) = _
-        rw [hl]
-      have hne : e ≠ .needsReordering := fun h => mapToLevelE_ne_signal m.tbl q (by rw [hl, h])
-      unfold quantify
-      rw [tryToReorder_err _ m e _ hb hne, setCtx_back]
-      exact Kept.refl hi
-  · unfold quantify
-    have hc' : RefExact { m with ctx := true } ext := ⟨hc.dom, hc.cnt, hc.extZero⟩
-    exact (tryToReorder_rk ext _ m
-      (quantifyBody_rk ext _ u q fa hi.wf.toWF.closed (hm rfl) hc')).2.2.1
-
-/-! ### the autoref methods, reordering not enabled: no hypothesis left -/
-
-theorem aVar_keepsOff (name : String) (h : Nat) : AKeeps true h (aVar name h) :=
-  aVar_keeps name (var_keepsOff name) h
-
-theorem aIte_keepsOff (hg hu hv h : Nat) : AKeeps true h (aIte hg hu hv h) :=
-  aIte_keeps ite_keepsOff hg hu hv h
-
-/-- `BDD.apply` with every alias that does not quantify -/
-theorem aApply_keepsOff (op : String) (hnq : NonQuant op) (hu : Nat) (hv hw : Option Nat) (h : Nat) :
-    AKeeps true h (aApply op hu hv hw h) :=
-  aApply_keeps op (fun u v w => apply_keepsOff op u v w hnq) hu hv hw h
-
-theorem aQuantify_keepsOff (hu : Nat) (q : List Key) (fa : Bool) (h : Nat) :
-    AKeeps true h (aQuantify hu q fa h) :=
-  aQuantify_keeps q fa (fun m u hm => quantify_keepsAtOff m u hm q fa) hu h
-
-/-- `~f`, `f & g`, `f | g`, `f.implies(g)`, `f.equiv(g)` -/
-theorem fApply_keepsOff (op : String) (hnq : NonQuant op) (hs : Nat) (ho : Option Nat) (h : Nat) :
-    AKeeps true h (fApply op hs ho h) :=
-  fApply_keeps op (fun u v => apply_keepsOff op u v none hnq) hs ho h
-
-/-- `f <= g`: the three temporaries are released, nothing else changes -/
-theorem fLe_keepsOff (hs ho : Nat) : AKeeps0 true (fLe hs ho) :=
-  fLe_keeps0 (fun u => apply_keepsOff "not" u none none nonQuant_not)
-    (fun u v => apply_keepsOff "or" u (some v) none nonQuant_or) hs ho
-
-theorem fLt_keepsOff (hs ho : Nat) : AKeeps0 true (fLt hs ho) :=
-  fLt_keeps0 (fun u => apply_keepsOff "not" u none none nonQuant_not)
-    (fun u v => apply_keepsOff "or" u (some v) none nonQuant_or) hs ho
-
-/-- `collect_garbage()`: no hypothesis, in every mode -/
-theorem aCollectGarbage_keepsAll {off : Bool} (h : Nat) : AKeeps off h aCollectGarbage :=
-  aCollectGarbage_keeps gc_keeps h
+theorem addVar_keepsAt {off : Bool} (m : Mgr) (name : String) (level : Option Int)
+    (hg : ∀ l : Int, level = some l → m.tbl.vars[name]? = none → l ≤ (m.nvars : Int)) :
+    CoreKeepsAt off m (addVar name level) := by
+  intro ext hm r m' he
+  obtain ⟨a, b, c, d, e, f, g, h, _, hn'⟩ := addVar_effect m ext hm.inv hm.order hm.counts name level hg
+  rw [he] at a b c d e f g h hn'
+  exact ⟨⟨a, b, c, by rw [d]; exact hm.ctx, by rw [e]; exact hm.sched, by rw [f]; exact hm.roots,
+    hm.mode.transfer g hn'⟩, h⟩
 
 /-! ### shutdown: no hypothesis when a collection ran after the last `Function` died -/
 
@@ -688,14 +381,14 @@ theorem autoref_collect_then_shutdown {off : Bool} (a : AMgr) (hi : AInv off a)
   obtain ⟨m2, hs, hn2, hz2⟩ := shutdown_of_empty m1 hn1 hr1
   exact ⟨m1, m2, hg, hn1, hs, hn2, hz2⟩
 
-/-! ### `cube` (reordering not enabled): a loop of `var` and `apply "and"` inside the decorator -/
+/-! ### loops inside one call: `cube`, `declare` -/
 
 /-- everything the autoref layer needs from a core computation, for every start state with
 reordering not enabled, plus: the reordering signal is never raised -/
 def Good {α : Type} (x : M α) : Prop :=
-  ∀ (m : Mgr) (ext : Nat → Nat), Inv m → m.lastLen = none → RefExact m ext →
-    Inv (x m).2 ∧ (x m).2.lastLen = none ∧ RefExact (x m).2 ext ∧
-    HeldExt m.tbl (x m).2.tbl ext ∧ (x m).1 ≠ .error .needsReordering
+  ∀ (m : Mgr) (ext : Nat → Nat), MInvC ext m →
+    MInvC ext (x m).2 ∧ HeldExt m.tbl (x m).2.tbl ext ∧ (x m).1 ≠ .error .needsReordering ∧
+    (x m).2.ctx = m.ctx
 
 theorem HeldExt.trans {t t' t'' : Tbl} {ext : Nat → Nat} (h1 : HeldExt t t' ext)
     (h2 : HeldExt t' t'' ext) : HeldExt t t'' ext := by
@@ -705,28 +398,28 @@ theorem HeldExt.trans {t t' t'' : Tbl} {ext : Nat → Nat} (h1 : HeldExt t t' ex
   exact ⟨m2, fun σ => (d2 σ).trans (d1 σ)⟩
 
 theorem Good.pure {α : Type} (v : α) : Good (pure v : M α) :=
-  fun m ext hi ho hr => ⟨hi, ho, hr, HeldExt.refl _ _, by
+  fun m ext hm => ⟨hm, HeldExt.refl _ _, by
     show (Except.ok v : Except Err α) ≠ _
-    simp⟩
+    simp, rfl⟩
 
 theorem Good.bind {α β : Type} {x : M α} {f : α → M β} (hx : Good x) (hf : ∀ v, Good (f v)) :
     Good (x >>= f) := by
-  intro m ext hi ho hr
-  obtain ⟨i1, o1, r1, h1, n1⟩ := hx m ext hi ho hr
+  intro m ext hm
+  obtain ⟨i1, h1, n1, c1⟩ := hx m ext hm
   have e : (x >>= f) m = M.bind' x f m := rfl
   rw [e]
   unfold M.bind'
-  generalize x m = res at i1 o1 r1 h1 n1
+  generalize x m = res at i1 h1 n1 c1
   obtain ⟨r, m1⟩ := res
   cases r with
   | error e' =>
-    refine ⟨i1, o1, r1, h1, ?_⟩
+    refine ⟨i1, h1, ?_, c1⟩
     intro h
     have h' : e' = Err.needsReordering := by simpa using h
     exact n1 (by rw [h'])
   | ok v =>
-    obtain ⟨i2, o2, r2, h2, n2⟩ := hf v m1 ext i1 o1 r1
-    exact ⟨i2, o2, r2, h1.trans h2, n2⟩
+    obtain ⟨i2, h2, n2, c2⟩ := hf v m1 ext i1
+    exact ⟨i2, h1.trans h2, n2, c2.trans c1⟩
 
 theorem Good.forIn {α β : Type} (f : α → β → M (ForInStep β)) (hf : ∀ a b, Good (f a b)) :
     ∀ (l : List α) (b : β), Good (forIn l b f)
@@ -740,37 +433,36 @@ theorem Good.forIn {α β : Type} (f : α → β → M (ForInStep β)) (hf : ∀
     | done b' => exact Good.pure b'
     | yield b' => exact Good.forIn f hf l b'
 
+theorem MInvC.setCtx {ext : Nat → Nat} {m : Mgr} (h : MInvC ext m) (c : Bool) : MInvC ext { m with ctx := c } :=
+  ⟨h.inv.setCtx c, h.order, ⟨h.counts.dom, h.counts.cnt, h.counts.extZero⟩, h.sched, h.roots, h.off⟩
+
 theorem Good.tryToReorder {α : Type} {f : M α} (hf : Good f) : Good (tryToReorder f) := by
-  intro m ext hi ho hr
-  obtain ⟨i1, o1, r1, h1, n1⟩ := hf { m with ctx := true } ext (hi.setCtx true) ho
-    ⟨hr.dom, hr.cnt, hr.extZero⟩
-  generalize hres : f { m with ctx := true } = res at i1 o1 r1 h1 n1
+  intro m ext hm
+  obtain ⟨i1, h1, n1, _⟩ := hf { m with ctx := true } ext (hm.setCtx true)
+  generalize hres : f { m with ctx := true } = res at i1 h1 n1
   obtain ⟨r, m1⟩ := res
-  have key : Inv { m1 with ctx := m.ctx } ∧ ({ m1 with ctx := m.ctx } : Mgr).lastLen = none ∧
-      RefExact { m1 with ctx := m.ctx } ext ∧ HeldExt m.tbl ({ m1 with ctx := m.ctx } : Mgr).tbl ext :=
-    ⟨i1.setCtx _, o1, ⟨r1.dom, r1.cnt, r1.extZero⟩, h1⟩
   cases r with
   | ok a =>
     rw [tryToReorder_ok f m a m1 hres]
-    exact ⟨key.1, key.2.1, key.2.2.1, key.2.2.2, by simp⟩
+    exact ⟨i1.setCtx _, h1, by simp, rfl⟩
   | error e =>
     have hne : e ≠ .needsReordering := fun he => n1 (by rw [he])
     rw [tryToReorder_err f m e m1 hres hne]
-    exact ⟨key.1, key.2.1, key.2.2.1, key.2.2.2, by simpa using hne⟩
+    exact ⟨i1.setCtx _, h1, by simpa using hne, rfl⟩
 
-/-- from `CoreKeeps true` and "never signals" -/
-theorem Good.of_keeps {α : Type} {x : M α} (hk : CoreKeeps true x)
-    (hn : ∀ (m : Mgr) (ext : Nat → Nat), Inv m → m.lastLen = none → RefExact m ext →
-      (x m).1 ≠ .error .needsReordering) : Good x := by
-  intro m ext hi ho hr
-  obtain ⟨a, b, c, d⟩ := hk.keeps m ext (fun _ => ho) hi hr (x m).1 (x m).2 rfl
-  exact ⟨a, d rfl, b, c, hn m ext hi ho hr⟩
+/-- from `Kept` + `Lite` -/
+theorem Good.of_total {α : Type} {x : M α}
+    (hk : ∀ (m : Mgr) ext, Inv m → RefExact m ext → m.lastLen = none → Kept m (x m).2)
+    (hl : ∀ (m : Mgr) ext, Lite ext m → LiteOut ext (x m)) : Good x := by
+  intro m ext hm
+  have k := hk m ext hm.inv hm.counts hm.off
+  have l := hl m ext (hm.inv.lite hm.counts hm.off)
+  exact ⟨⟨k.inv, hm.order.congr_auto k.frame.vars k.frame.l2v, l.1.exact,
+    by rw [k.frame.sched]; exact hm.sched, by rw [k.frame.roots]; exact hm.roots, l.1.off⟩,
+    heldExt_of_kept hm.inv k ext, l.2, k.frame.ctx⟩
 
 theorem var_good (name : String) : Good (var name) :=
-  Good.of_keeps (var_keepsOff name) fun m ext hi ho hr => by
-    rw [var_eq]
-    exact (tryToReorder_rk ext (varBody name) m
-      (varBody_kept_rk name _ ext (hi.setCtx true) ho ⟨hr.dom, hr.cnt, hr.extZero⟩).2).2.2.2
+  Good.of_total (fun m ext hi hr ho => var_total m ext hi hr ho name) (fun m ext hl => var_lite ext name m hl)
 
 theorem atomVal_ne_signal (u v w : Int) (a : Atom) : atomVal u v w a ≠ .error .needsReordering := by
   cases a <;> simp [atomVal]
@@ -778,12 +470,20 @@ theorem atomVal_ne_signal (u v w : Int) (a : Atom) : atomVal u v w a ≠ .error 
 theorem assertOperatorArity_ne_signal (op : String) (v w : Option Int) :
     assertOperatorArity op v w ≠ .error .needsReordering := by
   unfold assertOperatorArity
-  repeat (first | (apply ite_ne') | simp)
+  repeat' split
+  all_goals simp
+
+/-- an operator alias that does not quantify -/
+def NonQuant (op : String) : Prop :=
+  ∀ row, findRow op Gen.applyTable = some row → ∀ fa f b, row.templ ≠ .quant fa f b
+
+theorem nonQuant_and : NonQuant "and" := by
+  intro row h; simp [Gen.applyTable, findRow] at h; subst h; intro fa f b; simp
 
 /-- `apply` never raises the reordering signal when reordering is not enabled (aliases that do
 not quantify) -/
 theorem apply_ne_signal_nq (ext : Nat → Nat) (m : Mgr) (op : String) (u : Int) (v w : Option Int)
-    (hnq : NonQuant op) (hc : m.tbl.Closed) (ho : m.lastLen = none) (hr : RefExact m ext) :
+    (hnq : NonQuant op) (hl : Lite ext m) :
     (apply op u v w m).1 ≠ .error .needsReordering := by
   unfold apply
   cases hA : assertOperatorArity op v w with
@@ -819,7 +519,7 @@ theorem apply_ne_signal_nq (ext : Nat → Nat) (m : Mgr) (op : String) (u : Int)
                 split
                 · simp
                 · split
-                  · exact (ite_rk ext m _ _ _ hc ho hr).2.2.2
+                  · exact (ite_lite ext _ _ _ m hl).2
                   all_goals
                     intro h
                     have h' := h
@@ -829,8 +529,8 @@ theorem apply_ne_signal_nq (ext : Nat → Nat) (m : Mgr) (op : String) (u : Int)
 
 theorem apply_good (op : String) (hnq : NonQuant op) (u : Int) (v w : Option Int) :
     Good (apply op u v w) :=
-  Good.of_keeps (apply_keepsOff op u v w hnq) fun m ext hi ho hr =>
-    apply_ne_signal_nq ext m op u v w hnq hi.wf.toWF.closed ho hr
+  Good.of_total (fun m ext hi hr ho => apply_total' m ext hi hr ho op u v w)
+    (fun m ext hl => ⟨apply_lite ext op u v w m hl, apply_ne_signal_nq ext m op u v w hnq hl⟩)
 
 theorem cube_good (d : List (String × Bool)) : Good (cube d) := by
   unfold cube
@@ -840,14 +540,114 @@ theorem cube_good (d : List (String × Bool)) : Good (cube d) := by
   refine Good.bind (var_good name) fun u => ?_
   refine Good.bind (apply_good "and" nonQuant_and _ _ _) fun r' => Good.pure _
 
+theorem Good.keeps {α : Type} {x : M α} (h : Good x) : CoreKeeps true x := by
+  refine ⟨fun m ext hm r m' he => ?_⟩
+  obtain ⟨a, b, _, c⟩ := h m ext hm.toC
+  rw [he] at a b c
+  exact ⟨⟨a.inv, a.order, a.counts, by rw [c]; exact hm.ctx, a.sched, a.roots,
+    ⟨fun _ => a.off, fun h => nomatch h⟩⟩, b⟩
+
 /-- `BDD.cube(dvars)` for ANY names, reordering not enabled -/
-theorem cube_keepsOff (d : List (String × Bool)) : CoreKeeps true (cube d) := by
-  refine ⟨fun m ext hm hi hc r m' he => ?_⟩
-  obtain ⟨a, b, c, e, _⟩ := cube_good d m ext hi (hm rfl) hc
-  rw [he] at a b c e
-  exact ⟨a, c, e, fun _ => b⟩
+theorem cube_keepsOff (d : List (String × Bool)) : CoreKeeps true (cube d) := (cube_good d).keeps
+
+theorem addVar_good (name : String) : Good (addVar name none) := by
+  intro m ext hm
+  obtain ⟨a, b, c, d, e, f, g, h, n, _⟩ := addVar_effect m ext hm.inv hm.order hm.counts name none
+    (fun l hl => nomatch hl)
+  exact ⟨⟨a, b, c, by rw [e]; exact hm.sched, by rw [f]; exact hm.roots, by rw [g]; exact hm.off⟩, h, n, d⟩
+
+/-- `declare(*names)`: any names, reordering not enabled -/
+theorem declare_keepsOff (names : List String) : CoreKeeps true (declare names) := by
+  apply Good.keeps
+  unfold declare
+  exact Good.bind (Good.forIn _ (fun v _ => Good.bind (addVar_good v) fun _ => Good.pure _) names _)
+    fun _ => Good.pure _
+
+/-! ### the autoref methods, reordering not enabled: no hypothesis left -/
+
+theorem aVar_keepsOff (name : String) (h : Nat) : AKeeps true h (aVar name h) :=
+  aVar_keeps name (var_keepsOff name) h
+
+theorem aIte_keepsOff (hg hu hv h : Nat) : AKeeps true h (aIte hg hu hv h) :=
+  aIte_keeps ite_keepsOff hg hu hv h
+
+/-- `BDD.apply` with EVERY alias, the quantifier aliases included -/
+theorem aApply_keepsOff (op : String) (hu : Nat) (hv hw : Option Nat) (h : Nat) :
+    AKeeps true h (aApply op hu hv hw h) :=
+  aApply_keeps op (fun u v w => apply_keepsOff op u v w) hu hv hw h
+
+theorem aQuantify_keepsOff (hu : Nat) (q : List Key) (fa : Bool) (h : Nat) :
+    AKeeps true h (aQuantify hu q fa h) :=
+  aQuantify_keeps q fa (fun m u _ => (quantify_keepsOff u q fa).at m) hu h
+
+/-- `let` in its three forms (the values of the `Function` form may even belong to another
+manager: the wrapper does not test them, the core operation is total) -/
+theorem aLet_keepsOff (d : ALetArg) (hu h : Nat) : AKeeps true h (aLet d hu h) :=
+  aLet_keeps letOp_keepsOff d hu h
 
 theorem aCube_keepsOff (d : List (String × Bool)) (h : Nat) : AKeeps true h (aCube d h) :=
-  wrapResult_keeps (cube_keepsOff d) h
+  aCube_keeps d (cube_keepsOff d) h
+
+/-- `~f`, `f & g`, `f | g`, `f.implies(g)`, `f.equiv(g)` (any operator string) -/
+theorem fApply_keepsOff (op : String) (hs : Nat) (ho : Option Nat) (h : Nat) :
+    AKeeps true h (fApply op hs ho h) :=
+  fApply_keeps op (fun u v => apply_keepsOff op u v none) hs ho h
+
+/-- `f <= g`: the three temporaries are released, nothing else changes -/
+theorem fLe_keepsOff (hs ho : Nat) : AKeeps0 true (fLe hs ho) :=
+  fLe_keeps0 (fun u => apply_keepsOff "not" u none none)
+    (fun b _ _ _ u v _ _ => (apply_keepsOff "or" u (some v) none).at b.m) hs ho
+
+theorem fLt_keepsOff (hs ho : Nat) : AKeeps0 true (fLt hs ho) :=
+  fLt_keeps0 (fun u => apply_keepsOff "not" u none none)
+    (fun b _ _ _ u v _ _ => (apply_keepsOff "or" u (some v) none).at b.m) hs ho
+
+/-- `collect_garbage()`: no hypothesis, in every mode -/
+theorem aCollectGarbage_keepsAll {off : Bool} (h : Nat) : AKeeps off h aCollectGarbage :=
+  aCollectGarbage_keeps gc_keeps h
+
+theorem aDeclare_keepsOff (ns : List String) (h : Nat) : AKeeps true h (aDeclare ns) :=
+  aDeclare_keeps ns (declare_keepsOff ns) h
+
+/-- `add_var(name, level)` where the level leaves no gap (every mode) -/
+theorem aAddVar_keepsAt' {off : Bool} (a : AMgr) (n : String) (l : Option Int)
+    (hg : ∀ l' : Int, l = some l' → a.m.tbl.vars[n]? = none → l' ≤ (a.m.nvars : Int)) (h : Nat) :
+    AKeepsAt off a h (aAddVar n l) :=
+  aAddVar_keepsAt a n l (addVar_keepsAt a.m n l hg) h
+
+/-- `find_or_add(var, low, high)` when the level of `var` is above both children -/
+theorem aFindOrAdd_keepsAtOff (a : AMgr) (var : String) (hlow hhigh h : Nat)
+    (hg : ∀ level lo hi, (levelOfVar var a.m).1 = .ok level → (nodeAny hlow a).1 = .ok lo →
+      (nodeAny hhigh a).1 = .ok hi → FoaGuard a.m level lo hi) :
+    AKeepsAt true a h (aFindOrAdd var hlow hhigh h) :=
+  aFindOrAdd_keepsAt a var hlow hhigh h fun level lo hi h1 h2 h3 =>
+    findOrAdd_keepsAtOff a.m level lo hi (fun _ => by simpa using hg level lo hi h1 h2 h3)
+
+/-- `BDD.copy(u, other)` into this manager `a` from `src`: both satisfy the invariant, every
+variable of the support of the copied node is declared here -/
+theorem aCopyTo_keepsAtOff (a src : AMgr) {offS : Bool} (hsrc : AInv offS src) (hu h : Nat)
+    (hpre : ∀ u, (nodeIn hu src).1 = .ok u → CopyPreA src.m.tbl u a.m.tbl) :
+    AKeepsAt true a h (aCopyTo src hu h) := by
+  intro hi
+  refine aCopyTo_keepsAt a src hu h (fun u hu' => ?_) hi
+  have hx : nodeIn hu src = (.ok u, (nodeIn hu src).2) := by
+    rw [← hu']
+  obtain ⟨_, hmem⟩ := nodeIn_ok hu src _ u hx
+  exact copyBdd_keepsAtOff src.m.tbl hsrc.inv.wf.toWF hsrc.order u hmem a.m hi.order (hpre u hu')
+
+theorem aCopyBddTo_keepsAtOff (a src : AMgr) {offS : Bool} (hsrc : AInv offS src) (hu h : Nat)
+    (hpre : ∀ u, (nodeOwn hu src).1 = .ok u → CopyPreA src.m.tbl u a.m.tbl) :
+    AKeepsAt true a h (aCopyBddTo src hu h) := by
+  intro hi
+  refine aCopyBddTo_keepsAt a src hu h (fun u hu' => ?_) hi
+  have hmem : src.m.tbl.Mem u := by
+    unfold nodeOwn at hu'
+    cases hh : src.handles[hu]? with
+    | none => rw [hh] at hu'; cases hu'
+    | some v =>
+      rw [hh] at hu'
+      cases hu'
+      exact hsrc.hmem hu u hh
+  exact copyBdd_keepsAtOff src.m.tbl hsrc.inv.wf.toWF hsrc.order u hmem a.m hi.order (hpre u hu')
 
 end DD
